@@ -94,6 +94,56 @@ pub fn check_seeds(old: &[u8], new: &[u8], seeds: u64) -> Result<(bool, u64, u64
     Ok((u >= 2, seeds + perms, ops_fp(&reference.0)))
 }
 
+/// seeds, iteration orders and a relabelling on one large input (Patience and the text path)
+pub fn check_large(_alg: Algorithm, inp: &super::large::LargeInput) -> Result<(bool, u64, u64), String> {
+    let (old, new) = (&inp.old[..], &inp.new[..]);
+    let run = |seed: u64, scramble: Option<u64>| -> Result<Vec<DiffOp>, String> {
+        subject(|| {
+            similar::verif::set_hash_seed(Some(seed));
+            similar::verif::set_scramble(scramble);
+            cap(Algorithm::Patience, old, new)
+        })
+        .map_err(|p| format!("panic: {}", p))
+    };
+    let reference = run(0, None)?;
+    let mut runs = 1;
+    for seed in 1..8u64 {
+        let got = run(seed.wrapping_mul(0x9E37_79B9_7F4A_7C15), None)?;
+        runs += 1;
+        if got != reference {
+            return Err(format!(
+                "Patience ops change with the hasher seed (seed #{}: {} ops, seed #0: {} ops)",
+                seed,
+                got.len(),
+                reference.len()
+            ));
+        }
+    }
+    for code in [1u64, 2, 3, 1001, 2 * old.len() as u64 + 1] {
+        let got = run(0, Some(code))?;
+        runs += 1;
+        if got != reference {
+            return Err(format!(
+                "Patience ops change with the iteration order of the uniqueness map (order #{})",
+                code
+            ));
+        }
+    }
+    // relabelling (other values, other hashes, other type)
+    let o: Vec<u64> = old.iter().map(|&x| 7919 * x as u64 + 13).collect();
+    let n: Vec<u64> = new.iter().map(|&x| 7919 * x as u64 + 13).collect();
+    let got = subject(|| {
+        similar::verif::set_hash_seed(Some(0));
+        cap(Algorithm::Patience, &o, &n)
+    })
+    .map_err(|p| format!("panic: {}", p))?;
+    runs += 1;
+    if got != reference {
+        return Err("Patience ops change under the relabelling x -> 7919x+13".into());
+    }
+    Ok((true, runs, ops_fp(&reference)))
+}
+
 // ---- relabellings -------------------------------------------------------------------------
 
 pub fn check_relabel(old: &[u8], new: &[u8]) -> Result<(bool, u64, u64), String> {
@@ -404,6 +454,11 @@ pub fn run(cfg: &RunCfg) -> CheckReport {
     if rep.has_violation() {
         return rep;
     }
+    // the same on the enumerated large inputs (incl. > 1000 unique items per side)
+    super::large::run_part(cfg, &mut rep, &[Algorithm::Patience], &|_| usize::MAX, check_large);
+    if rep.has_violation() {
+        return rep;
+    }
 
     let rspace = PairSpace::new(match cfg.tier {
         Tier::Quick => vec![Scope::P { k: 3, n: 5 }, Scope::R { l: 8 }],
@@ -539,6 +594,10 @@ pub fn run(cfg: &RunCfg) -> CheckReport {
 }
 
 pub fn replay(case: &Value) -> Result<String, String> {
+    if let Some(r) = super::large::resolve(case) {
+        let (alg, inp) = r?;
+        return check_large(alg, &inp).map(|o| format!("holds; {} runs", o.1));
+    }
     match case.get("part").and_then(|x| x.as_str()) {
         Some("seeds") => {
             let old = parse_seq(case, "old")?;
